@@ -50,8 +50,8 @@ type scOut struct {
 type scStep struct {
 	Name   string `json:"name"`
 	Tag    string `json:"tag"`
-	Pre    string `json:"pre"`  // none | ok | fail | tmplfail
-	Out    scOut  `json:"out"`  // http: what the target answers
+	Pre    string `json:"pre"` // none | ok | fail | tmplfail
+	Out    scOut  `json:"out"` // http: what the target answers
 	Status int    `json:"status"`
 	Post   string `json:"post"` // none | pass | assertfail | extractfail
 	Want   int    `json:"want"` // grpc: code given to the step's status assert (rendered by TLC)
@@ -59,20 +59,34 @@ type scStep struct {
 }
 
 type scCaseC struct {
-	Kind   string `json:"kind"`
-	Out    scOut  `json:"out"`
-	Fmt    string `json:"fmt"`
-	Tag    string `json:"tag"`
-	At     struct {
+	Kind string `json:"kind"`
+	Out  scOut  `json:"out"`
+	Fmt  string `json:"fmt"`
+	Tag  string `json:"tag"`
+	At   struct {
 		Enabled   bool `json:"enabled"`
 		Depth     int  `json:"depth"`
 		NoTagOnly bool `json:"notagonly"`
 	} `json:"at"`
-	URI    string   `json:"uri"`
-	Status int      `json:"status"`
-	What   string   `json:"what"`
-	Name   string   `json:"name"`
-	Steps  []scStep `json:"steps"`
+	URI    string          `json:"uri"`
+	Status int             `json:"status"`
+	What   string          `json:"what"`
+	Name   string          `json:"name"`
+	Steps  json.RawMessage `json:"steps"` // scenario kinds: []scStep; scncancel: the step labels
+	Side   *struct {
+		AnswLog string `json:"answlog"` // off | all
+		Trace   bool   `json:"trace"`   // httptrace dump + trace
+	} `json:"side"`
+	Gun  string `json:"gun"`  // scncancel: http | grpc
+	When string `json:"when"` // scncancel: sleep | exchange | between
+}
+
+func (c *scCaseC) steps() []scStep {
+	var st []scStep
+	if err := json.Unmarshal(c.Steps, &st); err != nil {
+		panic(err)
+	}
+	return st
 }
 
 // scEv is one line of the log.
@@ -83,12 +97,12 @@ type scEv struct {
 	Insts  []string        `json:"insts,omitempty"`
 	CaseID int             `json:"caseid,omitempty"`
 	C      json.RawMessage `json:"c,omitempty"`
-	ID     int             `json:"id"` // Begin: id of the ammo (0: ammo has none); Report: id of the sample
+	ID     int             `json:"id"`             // Begin: id of the ammo (0: ammo has none); Report: id of the sample
 	Tags   *[]string       `json:"tags,omitempty"` // Report: always present, possibly empty
 	Proto  int             `json:"proto"`
 	Net    int             `json:"net"`
 	Err    string          `json:"err,omitempty"`
-	Seen   []string        `json:"seen,omitempty"` // End: what the target saw during the shot (evidence only)
+	Seen   []string        `json:"seen,omitempty"`  // End: what the target saw during the shot (evidence only)
 	Steps  *[]string       `json:"steps,omitempty"` // End of a scenario shot: the step labels of the requests the target saw
 	Note   string          `json:"note,omitempty"`
 	N      int             `json:"n,omitempty"`
@@ -114,9 +128,14 @@ func (l *scLog) emit(e scEv) int {
 
 // scAgg is the per-instance reporting aggregator mock.
 type scAgg struct {
-	inst string
-	log  *scLog
+	inst  string
+	log   *scLog
+	mu    sync.Mutex
+	onRep func(n int) // called after the n-th Report since it was installed
+	nrep  int
 }
+
+func (a *scAgg) setOnRep(f func(n int)) { a.mu.Lock(); a.onRep, a.nrep = f, 0; a.mu.Unlock() }
 
 func (a *scAgg) Run(ctx context.Context, _ core.AggregatorDeps) error { <-ctx.Done(); return nil }
 func (a *scAgg) Report(s core.Sample) {
@@ -134,6 +153,13 @@ func (a *scAgg) Report(s core.Sample) {
 		e.Err = ns.Err().Error()
 	}
 	a.log.emit(e)
+	a.mu.Lock()
+	a.nrep++
+	cb, n := a.onRep, a.nrep
+	a.mu.Unlock()
+	if cb != nil {
+		cb(n)
+	}
 }
 
 // scShoot wraps one real Shoot between Begin and End.
@@ -168,6 +194,7 @@ type scEnv struct {
 	grpc    *targets.GRPCTarget
 	guns    map[string]core.Gun
 	agg     *scAgg
+	answDir string
 }
 
 func (e *scEnv) gun(key string, m map[string]interface{}, yamlShape bool, cache bool) core.Gun {
@@ -274,9 +301,18 @@ func (e *scEnv) runCase(cs hwCase) {
 			gm["target"] = e.refused.Addr
 			key = "http/refused"
 		}
+		if c.Side != nil { // the gun's side channels look on: answer log (own file) and httptrace dump + trace
+			gm["httptrace"] = map[string]interface{}{"dump": c.Side.Trace, "trace": c.Side.Trace}
+			if c.Side.AnswLog != "off" {
+				gm["answlog"] = map[string]interface{}{"enabled": true, "filter": c.Side.AnswLog,
+					"path": fmt.Sprintf("%s/answ_%s_%v.log", e.answDir, c.Side.AnswLog, c.Side.Trace)}
+			}
+			key += fmt.Sprintf("/side/%s/%v", c.Side.AnswLog, c.Side.Trace)
+		}
 		tgt.Set(map[string]targets.Behaviour{
 			"status":    {Kind: "status", Status: c.Out.Status},
 			"truncated": {Kind: "truncate", Status: c.Out.Status},
+			"resetbody": {Kind: "resetbody", Status: c.Out.Status},
 			"reset":     {Kind: "reset"},
 			"timeout":   {Kind: "stall"},
 			"refused":   {Kind: "status", Status: 200},
@@ -361,7 +397,7 @@ func (e *scEnv) runCase(cs hwCase) {
 		g := e.gun("httpscn", gm, yamlShape, true)
 		sc := &httpscn.Scenario{Name: c.Name, ID: uint64(cs.ID), VariableStorage: scVars{}}
 		tm := httptempl.NewTextTemplater() // fresh template cache per case (the cache is keyed by scenario/step name)
-		for _, st := range c.Steps {
+		for _, st := range c.steps() {
 			rq := httpscn.Request{Method: "GET", Name: st.Name, URI: scBehPath(st.Out, st.Name), Templater: tm}
 			// REAL pre/postprocessor objects of components/providers/scenario/http
 			switch st.Pre {
@@ -391,7 +427,7 @@ func (e *scEnv) runCase(cs hwCase) {
 		g := e.gun("grpcscn", gm, yamlShape, true)
 		sc := &grpcscn.Scenario{Name: c.Name, VariableStorage: scVars{}}
 		sc.SetID(uint64(cs.ID))
-		for i, st := range c.Steps {
+		for i, st := range c.steps() {
 			// the gun's template cache is keyed by scenario name + step NAME: unique names per case (the tag is the step's Tag)
 			call := grpcscn.Call{Name: fmt.Sprintf("c%d_call%d", cs.ID, i+1), Tag: st.Tag, Call: "target.TargetService.Hello",
 				Payload: []byte(fmt.Sprintf(`{"name":"code:%d/%s"}`, st.Status, st.Tag))}
@@ -413,9 +449,91 @@ func (e *scEnv) runCase(cs hwCase) {
 		}
 		e.grpc.Calls()
 		scShoot(e.log, "m2", g, sc, cs.ID, cs.C, e.grpc.Calls)
+	case "scncancel":
+		e.runCancel(cs, &c, yamlShape)
 	default:
 		panic("case kind " + c.Kind)
 	}
+}
+
+// runCancel: a three-step scenario shot with a gun of its own whose context is cancelled while the shot runs -
+// during step 1's sleep (some time after its sample), during step 1's exchange (the target has the request and
+// answers late), or between steps 1 and 2 (from inside the Report of sample 1).
+func (e *scEnv) runCancel(cs hwCase, c *scCaseC, yamlShape bool) {
+	var labels []string
+	if err := json.Unmarshal(c.Steps, &labels); err != nil {
+		panic(err)
+	}
+	ctx, cancel := context.WithCancel(context.Background())
+	defer cancel()
+	agg := &scAgg{inst: "m2", log: e.log}
+	typ, target := "http/scenario", e.plain.Addr()
+	if c.Gun == "grpc" {
+		typ, target = "grpc/scenario", e.grpc.Addr()
+	}
+	f, err := hwDecodeGunFactory(map[string]interface{}{"type": typ, "target": target}, yamlShape)
+	if err != nil {
+		panic(err)
+	}
+	g, err := hwNewGun(f, agg, ctx, e.zl, 0, &hwShared{})
+	if err != nil {
+		panic(err)
+	}
+	sleep := time.Duration(0)
+	switch c.When {
+	case "sleep":
+		sleep = 500 * time.Millisecond
+		agg.setOnRep(func(n int) {
+			if n == 1 {
+				time.AfterFunc(30*time.Millisecond, cancel) // lands in step 1's sleep (if the machine is slow: later - any moment is legitimate)
+			}
+		})
+	case "between":
+		agg.setOnRep(func(n int) {
+			if n == 1 {
+				cancel()
+			}
+		})
+	case "exchange":
+		var once sync.Once
+		e.plain.OnReq(func(string) { once.Do(cancel) })
+		e.grpc.OnCall(func(string) { once.Do(cancel) })
+		defer e.plain.OnReq(nil)
+		defer e.grpc.OnCall(nil)
+	}
+	if c.Gun == "http" {
+		sc := &httpscn.Scenario{Name: c.Name, ID: uint64(cs.ID), VariableStorage: scVars{}}
+		tm := httptempl.NewTextTemplater()
+		for i, lb := range labels {
+			o := scOut{Kind: "status", Status: 200}
+			if c.When == "exchange" && i == 0 {
+				o = scOut{Kind: "delay", Status: 200}
+			}
+			rq := httpscn.Request{Method: "GET", Name: lb, URI: scBehPath(o, lb), Templater: tm}
+			if i == 0 {
+				rq.Sleep = sleep
+			}
+			sc.Requests = append(sc.Requests, rq)
+		}
+		scShoot(e.log, "m2", g, sc, cs.ID, cs.C, e.seenHTTP)
+		return
+	}
+	sc := &grpcscn.Scenario{Name: c.Name, VariableStorage: scVars{}}
+	sc.SetID(uint64(cs.ID))
+	for i, lb := range labels {
+		name := "code:0/" + lb
+		if c.When == "exchange" && i == 0 {
+			name = "slow/" + lb
+		}
+		call := grpcscn.Call{Name: fmt.Sprintf("c%d_call%d", cs.ID, i+1), Tag: lb, Call: "target.TargetService.Hello",
+			Payload: []byte(fmt.Sprintf(`{"name":"%s"}`, name))}
+		if i == 0 {
+			call.Sleep = sleep
+		}
+		sc.Calls = append(sc.Calls, call)
+	}
+	e.grpc.Calls()
+	scShoot(e.log, "m2", g, sc, cs.ID, cs.C, e.grpc.Calls)
 }
 
 func samplecodingMain(args []string) {
@@ -435,6 +553,11 @@ func samplecodingMain(args []string) {
 	switch *mode {
 	case "cases":
 		e := &scEnv{log: l, zl: zap.NewNop(), fs: fs, rec: rec, guns: map[string]core.Gun{}, agg: &scAgg{inst: "m2", log: l}}
+		e.answDir = *outPath + ".answlog"
+		if err := os.MkdirAll(e.answDir, 0o755); err != nil {
+			panic(err)
+		}
+		defer os.RemoveAll(e.answDir)
 		e.plain = targets.NewHTTP("target", false, rec)
 		e.tls = targets.NewHTTP("target", true, rec)
 		defer e.plain.Close()
